@@ -536,7 +536,8 @@ func ReductionWitnesses(m *big.Int) *Witnesses {
 	return w
 }
 
-// WithWitnesses returns vals extended by the solved members for m (FromMont and ToMont), sorted by value. It is meant
+// WithWitnesses returns vals extended by the solved members for m (FromMont and ToMont) and by the raw neighbours
+// of the level-1 limb products, sorted by value. It is meant
 // for the unary sweeps; pair sweeps take Witnesses.Pairs as an explicit list instead of squaring the larger set.
 func WithWitnesses(vals []Val, m *big.Int) []Val {
 	w := ReductionWitnesses(m)
@@ -556,6 +557,53 @@ func WithWitnesses(vals []Val, m *big.Int) []Val {
 				out = append(out, Val{V: v, Raw: ref.Mont(v, m)})
 			}
 		}
+	}
+
+	for _, v := range RawNeighbours(m, 1) {
+		if !seen[v.V.Text(16)] {
+			seen[v.V.Text(16)] = true
+			out = append(out, v)
+		}
+	}
+
+	sort.Slice(out, func(i, j int) bool { return out[i].V.Cmp(out[j].V) < 0 })
+
+	return out
+}
+
+// RawNeighbours returns the members whose *Montgomery limbs* are a limb-product pattern plus or minus one, and the
+// half-range boundaries 2^255, (m+-1)/2, m-2^255 with their neighbours: the closure of the value alphabet under
+// x -> x+-1 acts on canonical values, which moves the stored limbs by +-R, so representations one unit away from a
+// pattern (all-ones limbs below a 2^63 top limb, say) are not reached by it.
+func RawNeighbours(m *big.Int, level int) []Val {
+	set := map[string]*big.Int{}
+	one := big.NewInt(1)
+	add := func(raw *big.Int) {
+		for _, d := range []int64{-1, 0, 1} {
+			v := new(big.Int).Add(raw, big.NewInt(d))
+			if v.Sign() >= 0 && v.Cmp(m) < 0 {
+				set[v.Text(16)] = v
+			}
+		}
+	}
+
+	for _, s := range Strings256(m, level) {
+		add(s)
+	}
+
+	half := new(big.Int).Lsh(one, 255)
+	add(half)
+	add(new(big.Int).Sub(m, half))
+	add(new(big.Int).Rsh(m, 1))
+
+	for i := uint(64); i < 256; i += 64 {
+		add(new(big.Int).Lsh(one, i))
+		add(new(big.Int).Sub(new(big.Int).Lsh(one, i+63), one))
+	}
+
+	out := make([]Val, 0, len(set))
+	for _, raw := range set {
+		out = append(out, Val{V: ref.Unmont(ref.Limbs(raw), m), Raw: ref.Limbs(raw)})
 	}
 
 	sort.Slice(out, func(i, j int) bool { return out[i].V.Cmp(out[j].V) < 0 })
